@@ -237,6 +237,12 @@ func (g *Gen) instrWrites(in ssa.Instruction, ws *WriteSet) (callees []*ssa.Func
 			ws.Names[d] = true
 			ws.Names[v] = true
 		}()
+	case *ssa.Next:
+		if rng, ok := in.Iter.(*ssa.Range); ok {
+			if h := g.seenHeap(rng); h != "" {
+				ws.Names[h] = true
+			}
+		}
 	case *ssa.MakeClosure:
 		if fn, ok := in.Fn.(*ssa.Function); ok {
 			callees = append(callees, fn)
@@ -408,6 +414,22 @@ func (g *Gen) loopWrites(fn *ssa.Function, li *loopInfo) *WriteSet {
 			for _, cal := range g.instrWrites(in, ws) {
 				if g.opaqueRepoFn(cal) {
 					continue
+				}
+				if con := g.ContractOf(cal); con != nil && con.HasModifies && !con.Inline && cal.Pkg != nil {
+					// a callee under contract is abstracted by its modifies clause at the call site
+					star := false
+					for _, m := range con.Modifies {
+						if m == "*" {
+							star = true
+							break
+						}
+						for _, h := range g.resolveHeapSpec(cal.Pkg.Pkg, m) {
+							ws.Names[h] = true
+						}
+					}
+					if !star {
+						continue
+					}
 				}
 				ws.add(g.WriteSetOf(cal))
 			}
